@@ -216,6 +216,36 @@ claim("C05",
       "TLA+ specification with exact meridian/equator oracles, TLC-enumerated case skeleton exercised on the real code, TLC trace validation with guarded instrument",
       "DESIGN.md section 4 C05")
 
+claim("C18",
+      "Sinex.tla models a SINEX solution (station entries with solution numbers, vel/no-vel, L/U, dense / block-diagonal / "
+      "zero-stripped covariance with symbolic element values), the three editors, the three readers, the file grammar, the "
+      "three-per-line matrix layout and the creation stamp. TLC checks the model exhaustively for documents of 1..5 entries x 16 "
+      "layouts x every removal set (estimates kept in order, renumbering, sub-matrix exactness, header count, well-formedness, "
+      "composition / commutation / idempotence laws) and generates the behaviours: every single call, every wall clock of the "
+      "property x every editor, chains of calls feeding output back as input, and for a 12-station document every one of the 4095 "
+      "removal sets (thorough). Each behaviour is executed on the real geodepy.gnss functions under a substituted clock; every "
+      "output file is tokenised lexically and judged by Trace_Sinex.tla clause by clause (grammar, fixed-width header text with stamp "
+      "and count, verbatim SITE/ID, EPOCHS and renumbered ESTIMATE records, covariance element map, zero-line removal), as are the "
+      "tuples returned by the three readers; set_creation_time() is judged on every second of the day.",
+      "Trusted: TLC; the renderer of harness/sinexio.py (bound by the Input clauses: each rendered start file must satisfy the same "
+      "clauses) and its lexical tokenizer; projection of returned floats on the written 15/6-digit lattice. Exhaustive only up to the "
+      "stated bounds; free text of FILE/COMMENT is not judged.",
+      "TLA+ document/editor/grammar/clock specification, exhaustive TLC on small documents, TLC-generated behaviours replayed on real files under a substituted clock, TLC trace validation",
+      "DESIGN.md section 4 C18")
+claim("C13",
+      "Mga.tla makes the transformation a five-step behaviour (Grid2Geo -> Llh2Xyz -> Helmert7(P or -P) -> Xyz2Llh -> "
+      "Geo2Grid(natural zone)) with the height rule and the covariance rule; TLC checks order, rules and termination for all "
+      "direction x height x covariance classes. The driver calls the public pipeline AND the public step functions itself; "
+      "Trace_Mga (TLC) consumes the stage events with Mga's actions and decides: every stage's input is the previous stage's output "
+      "bit for bit, the pipeline's return equals the stepwise result exactly (4-decimal height rounding), no input height -> 0 in / "
+      "0 out, covariance out iff in, natural zone of the transformed position (also within 2 m of a zone boundary), the Helmert "
+      "stage against Helmert.tla (1 um), covariance symmetric / PSD / bit-identical to local2cart -> conform7 -> cart2local, and "
+      "there-and-back returns within 0.3 mm / 0.2 mm (grid, or geographic when the zone changes).",
+      "Trusted: TLC, BigFix; the covariance VALUE is decided piecewise (J Q J^T in C06, rotations in C16) and here by exact equality "
+      "with the composition. Grid points are a lattice over zones 46..59 x eastings x latitudes -60..-5 with seeded jitter.",
+      "TLA+ multi-step behaviour specification model-checked by TLC, stepwise stage events recorded from the real code, TLC trace validation with the spec's own actions",
+      "DESIGN.md section 4 C13")
+
 NOT_YET = "check not built yet in this session (work in progress; see DESIGN.md section 8 for build order)"
 
 
